@@ -92,8 +92,8 @@ func knownSingleMethodBit(b int64) bool {
 
 type Reply struct {
 	Bit      int64 `json:"bit"`
-	Ack      bool  `json:"ack,omitempty"`   // CLAIMTOBE: accept the claim
-	HasKeyOK bool  `json:"hk,omitempty"`    // after success: send a well-formed (empty) key message
+	Ack      bool  `json:"ack,omitempty"` // CLAIMTOBE: accept the claim
+	HasKeyOK bool  `json:"hk,omitempty"`  // after success: send a well-formed (empty) key message
 }
 
 // SrvScript is a scripted server: everything it sends is spelled out.
